@@ -1163,7 +1163,7 @@ def pm12_attributes(r, R):
                 tag = val[2]
                 inner = strip(list(val[3].values())[0], mir.VALUE_PRESERVING)
             key_ok = any(st[0] == "proj" and any(e != "*" and e[0] == "f" and e[3] == "key" for e in st[2]) and st[1][0] == "call" and st[1][3] == n for st in mir.subterms(inner)) or \
-                ("call", n) in tp.origins(c.node["args"][1], transparent=lambda t: True)
+                ("call", n) in tp.origins(c.node["args"][1], transparent=lambda t: t is not n.node)
             want_tag = "Mandatory" if path == "existing" else None
             okp = not g and key_ok and tag == want_tag and src_ok
             vec_local = _root_local_of(tp, term_of(tp, c.node["args"][0]))
